@@ -342,10 +342,11 @@ def has_bad_keys(v):
     if t == "arr": return any(has_bad_keys(x) for x in v[1])
     if t == "set":
         cs = [val_canon(x) for x in v[1]]
-        return len(set(cs)) != len(cs) or any(has_bad_keys(x) for x in v[1])
+        # a Set / Map normalises the key -0 to +0: not expressible in the value syntax of the model
+        return len(set(cs)) != len(cs) or NEGZ in v[1] or any(has_bad_keys(x) for x in v[1])
     if t == "map":
         cs = [val_canon(a) for a, _ in v[1]]
-        return len(set(cs)) != len(cs) or any(has_bad_keys(a) or has_bad_keys(b) for a, b in v[1])
+        return len(set(cs)) != len(cs) or any(a == NEGZ for a, _ in v[1]) or any(has_bad_keys(a) or has_bad_keys(b) for a, b in v[1])
     return False
 
 
@@ -414,7 +415,10 @@ def forced_cases(seed, n):
                 rt = ("AllOf", [left, right])
         else:
             # Map / Set / records of unions
-            rt = r.choice([("Map", ("Typeof", "string"), ("AnyOf", [g.leaf(), g.leaf()])), ("Set", ("AnyOf", [g.leaf(), g.leaf()])),
+            ko = ("Object", [("id", ("Typeof", "number"))], [])
+            vo = ("Object", [("id", ("Typeof", "number")), ("name", ("Typeof", "string")), ("age", ("Optional", ("Typeof", "number")))], [])
+            rt = r.choice([("Map", ("Typeof", "string"), vo), ("Map", ko, vo), ("Map", ko, g.leaf()), ("Map", vo, ko), ("Set", vo),
+                           ("Map", ("Typeof", "string"), ("AnyOf", [g.leaf(), g.leaf()])), ("Set", ("AnyOf", [g.leaf(), g.leaf()])),
                            ("Object", [], [(("Typeof", "string"), ("AnyOf", [g.leaf(), ("Object", [("a", g.leaf())], [])]))]),
                            ("AnyOf", [("Map", ("Typeof", "string"), g.leaf()), ("Nullish", "null")])])
         out.append((env, rt))
